@@ -345,6 +345,10 @@ func (s *spaceService) spacePullWithPeer(ctx context.Context, p peer.Peer, id st
 		err = rpcerr.Unwrap(err)
 		return
 	}
+	if res == nil || res.Payload == nil {
+		// the payload is a singular sub-message: a hostile or broken peer may omit it
+		return nil, spacesyncproto.ErrUnexpected
+	}
 
 	st, err = s.createSpaceStorage(ctx, spacestorage.SpaceStorageCreatePayload{
 		AclWithId: &consensusproto.RawRecordWithId{
